@@ -49,7 +49,7 @@ FromHeader(h) ==
    icount |-> p.icount, obs |-> <<>>, kbd |-> p.kbd, disp |-> p.disp,
    devs |-> [i \in 1..Len(r.devs) |-> DevOf(r.devs[i])], ports |-> PairsFn(r.ports),
    ireg |-> PairsFn(r.ireg), flags |-> FlagsOf(r.flags), alloca |-> AllocaSeq(r.alloca),
-   srdefs |-> <<>>, base |-> h, bps |-> {}, pause |-> "Unsuccessful"]
+   srdefs |-> <<>>, base |-> h, bps |-> {}, pause |-> "Unsuccessful", devn |-> {}]
 
 ---------------------------------------------------------------------------
 \* comparison of the specification state with a logged projection
@@ -197,6 +197,37 @@ ObsProp(s, r) ==
   /\ \A o \in SeqSet(p.obs) : (o[1] < IO_START /\ (o[2] \div 2) % 2 = 1 /\ (o[2] \div 4) % 2 = 0)
         => \A q \in SeqSet(p.memdiff) : q[1] # o[1]
 
+\* C10: interrupts are priority-gated; the highest-priority pending request wins;
+\* entry saves PSR and PC on the supervisor stack and enters supervisor mode at the
+\* vector.  Stated on the requests visible at this boundary and the logged result.
+PendingReqs(s, env) ==
+       { <<env.ints[d.slot].vect, Min(env.ints[d.slot].prio, 7)>> :
+            d \in { s.devs[j] : j \in { j \in 1..Len(s.devs) : s.devs[j].k = "intfn" /\ env.ints[s.devs[j].slot].k = 1 } } }
+  \cup { <<128, 4>> : j \in { j \in 1..Len(s.devs) : s.devs[j].k = "kbd" /\ s.devs[j].ie /\ s.kbd # <<>> /\ ~env.lockK } }
+  \cup { <<s.devs[j].vect, Min(s.devs[j].prio, 7)>> :
+            j \in { j \in 1..Len(s.devs) : s.devs[j].k = "timer" /\ s.devs[j].en /\ s.devs[j].time = 1 } }
+ExtPending(s, env) == \E j \in 1..Len(s.devs) : s.devs[j].k = "intfn" /\ env.ints[s.devs[j].slot].k = 2
+
+IntGate(s, r) ==
+  LET p    == r.proj
+      env  == EnvOf(r.env)
+      reqs == PendingReqs(s, env)
+      mx   == IF reqs = {} THEN -1 ELSE CHOOSE m \in { q[2] : q \in reqs } : \A q \in reqs : q[2] <= m
+      r6   == p.regs[7][1]
+  IN IF ExtPending(s, env) THEN r.res = "Interrupt"
+     ELSE IF mx > Prio(s.psr)
+     THEN \* the interrupt is taken at this boundary, before any instruction executes
+          r.res = "ok" =>
+            /\ p.icount = s.icount
+            /\ Privileged(p.psr) /\ Prio(p.psr) = mx /\ CC(p.psr) = 2
+            /\ \E q \in reqs : q[2] = mx /\ p.pc = Rd(s, 256 + q[1]).v
+            /\ \E q \in SeqSet(p.memdiff) \cup { <<a, Rd(s, a).v, Rd(s, a).m>> : a \in {Wrap(r6), Wrap(r6 + 1)} } :
+                  q[1] = Wrap(r6) /\ q[2] = s.pc
+            /\ \E q \in SeqSet(p.memdiff) \cup { <<a, Rd(s, a).v, Rd(s, a).m>> : a \in {Wrap(r6), Wrap(r6 + 1)} } :
+                  q[1] = Wrap(r6 + 1) /\ q[2] = s.psr
+     ELSE \* not taken: the step is an ordinary instruction step; the priority is not raised by it
+          (r.res = "ok" /\ p.icount = s.icount) => (p.pc = s.pc \/ s.flags.real)
+
 \* C14 inside the specification: from this very state, the strict and the
 \* non-strict step either agree or the strict one fails with a strict error
 StrictRel(s, env) ==
@@ -217,7 +248,8 @@ ApplyStep(s, r) ==
          \cup (IF Isolation(s, r) THEN {} ELSE {"isolation"})
          \cup (IF DepthOK(s, r) THEN {} ELSE {"depth"})
          \cup (IF ObsProp(ClearObs(s), r) THEN {} ELSE {"obsprop"})
-         \cup (IF StrictRel(s, env) THEN {} ELSE {"strictrel"})]
+         \cup (IF StrictRel(s, env) THEN {} ELSE {"strictrel"})
+         \cup (IF IntGate(s, r) THEN {} ELSE {"intgate"})]
 
 SetPortsFor(s, ports, id) ==
   [s EXCEPT !.ports = [a \in (DOMAIN @) \cup SeqSet(ports) |->
@@ -293,11 +325,19 @@ ApplyHost(s0, r) ==
     [] r.op = "prefetchpc" ->
          [st |-> s, bad |-> IF r.v = PrefetchPc(s) THEN {} ELSE {"prefetchpc"}]
 
+\* C33: an echo scenario declares the bytes the display must show at the end (every
+\* queued input byte exactly once and in order).  A loss that the two transcribed
+\* try_write deviations explain is reported under their names.
+EndBad(s, r) ==
+  IF "expect_disp" \notin DOMAIN r THEN {}
+  ELSE IF s.disp = r.expect_disp /\ s.kbd = r.expect_kbd THEN {}
+  ELSE IF s.devn # {} THEN { "lost-byte:" \o d : d \in s.devn } ELSE {"lost-byte"}
+
 Apply(s, r) ==
   CASE r.ev = "Step" -> ApplyStep(s, r)
     [] r.ev = "Host" -> ApplyHost(s, r)
     [] r.ev = "Run"  -> ApplyRun(s, r)
-    [] r.ev = "End"  -> [st |-> Clean(s), bad |-> {}]
+    [] r.ev = "End"  -> [st |-> Clean(s), bad |-> EndBad(s, r)]
     [] r.ev = "Panic" -> [st |-> s, bad |-> {"panic"}]
     [] OTHER -> [st |-> s, bad |-> {"unknown-event"}]
 
